@@ -277,7 +277,7 @@ def spaces(tier, variant, seed):
                 if e > 1200:
                     continue
                 for n in sorted({e - 1, e, e + 1, e + 2, 2 * e, 2 * e + 1, 3 * e + 1}):
-                    if 1 <= n < 1500:
+                    if 1 <= n < (800 if quick else 1500):
                         ob.append((cfg, n, sorted({n, max(1, n - 1), max(1, (2 * n) // 3), max(1, n // 2)})))
         sp.append(Space("rt_other_vectors", ob, big_cases, big_one, "shipped vectors and single-threshold deviations around their own gcd thresholds"))
 
